@@ -33,6 +33,12 @@ def run(ctx):
     ctx.validate("Product", ts, "detectors: private copies vs caller overwrites everything it passed (11 layouts)", sabotage=P.sabotage,
                  replay=lambda i: {"mode": "det", "fam": ts[i]["fam"], "params": ts[i]["params"], "items": ts[i]["items"], "layout": ts[i]["layout"], "seed": ts[i]["seed"]},
                  nontrivial=lambda t: any(e["a"]["state"] == "drift" for e in t["ev"]))
+    # MD3: frames with a label column, and a third call (give_oracle_label) that accumulates what it is handed over several calls
+    tm = [D.md3_pair(rng.randrange(10 ** 6), mode, L, sens) for mode in ("garbage", "reuse") for L in (5, 8, None) for sens in (0.5, 1.0)
+          for i in range(1 if q else 6)]
+    ctx.validate("Product", tm, "MD3: private copies vs the caller's own (overwritten / reused) frames, labelled samples included", sabotage=P.sabotage,
+                 replay=lambda i: {"mode": "md3", "m": tm[i]["mode"], "L": tm[i]["L"], "sens": tm[i]["sens"], "seed": tm[i]["seed"]},
+                 nontrivial=lambda t: any("labelled=0" not in e["a"]["tag"] for e in t["ev"]))
     ti = []
     for kind in INJ:
         for frame in (False, True):
@@ -48,7 +54,9 @@ def run(ctx):
 
 def replay(ctx, bundle):
     r = bundle["replay"]
-    if r["mode"] == "det":
+    if r["mode"] == "md3":
+        t = D.md3_pair(r["seed"], r["m"], r["L"], r["sens"])
+    elif r["mode"] == "det":
         t = D.detector_pair(r["fam"], r["params"], r["items"], r["layout"], r["seed"])
     else:
         t = D.injector_pair(r["kind"], r["frame"], r["seed"])
